@@ -107,9 +107,23 @@ def run(ctx):
     loops = [s for s in cl.node.body if isinstance(s, ast.For) and A.norm(s.iter) == "plan"]
     ok = False
     if loops:
-        ifs = [s for s in loops[0].body if isinstance(s, ast.If)]
-        ok = bool(ifs) and A.norm(ifs[0].test) == "msg.command == 'set' and obj not in ignore" and any(
-            isinstance(x, ast.If) and A.norm(x.test) == "isinstance(obj, Checkable)" and "await maybe_await(obj.check_value(msg.args[0]))" in A.norm(x.body[0]) for x in ifs[0].body)
+        # the check is reached only for a 'set' on a Checkable object that is not on the ignore list - by guard dominance, however
+        # the three conditions are nested, merged or written as guard clauses
+        gcl = q.cfg(cl, q.quiet_policy(repo))
+        chk = [s_ for s_ in A.walk_stmts(loops[0].body) if not isinstance(s_, (ast.If, ast.For, ast.While, ast.Try, ast.With))
+               and "await maybe_await(obj.check_value(msg.args[0]))" in A.norm(s_)]
+
+        def conj_has(t, txt):
+            vals = t.values if isinstance(t, ast.BoolOp) and isinstance(t.op, ast.And) else [t]
+            return any(A.norm(v) == txt for v in vals)
+        if len(chk) == 1:
+            is_set = q.guard_true_dominates(gcl, chk[0], lambda t: conj_has(t, "msg.command == 'set'"), "T") is None
+            not_ignored = q.guard_true_dominates(gcl, chk[0], lambda t: conj_has(t, "obj not in ignore"), "T") is None or \
+                q.guard_true_dominates(gcl, chk[0], lambda t: A.norm(t) == "obj in ignore", "F") is None
+            checkable = q.guard_true_dominates(gcl, chk[0], lambda t: conj_has(t, "isinstance(obj, Checkable)"), "T") is None or \
+                q.guard_true_dominates(gcl, chk[0], lambda t: A.norm(t) == "not isinstance(obj, Checkable)", "F") is None
+            n_tests = sum(1 for s_ in A.walk_stmts(loops[0].body) if isinstance(s_, ast.If))
+            ok = is_set and not_ignored and checkable and n_tests <= 3
     ctx.ob("C32.D5-check-limits", cname(cl, None, "check_value(msg.args[0]) for every 'set' on a Checkable"), ok, "" if ok else "limit check changed", nontrivial=True, where=where(cl, cl.node))
     tries = [s for s in A.walk_stmts(cl.node.body) if isinstance(s, ast.Try)]
     ctx.ob("C32.D5-check-limits", cname(cl, None, "a limit violation propagates"), not tries, "" if not tries else "exceptions of check_value are caught", where=where(cl, cl.node))
